@@ -171,7 +171,7 @@ func TestC31(t *testing.T) {
 		"RekeyThreshold class (256/300/1KiB/64KiB or none), the side and hold point of the forced queue overflow; PRNG picks cipher, kex, " +
 		"buffer sizes, short reads, tap delays and a script of phases (free writing, explicit requests, forced simultaneous KEXINIT, forced >64 queued packets). " +
 		"evaluation = one connection or one completed re-key round judged by the offline checkers; distinct = scenario class or interleaving signature " +
-		"(hash of the run-collapsed order of event kinds between the first KEXINIT and the last NEWKEYS read of a round)")
+		"(hash of the order of key-exchange packets written/read per side, key changes, requests and holds between the first KEXINIT and the last NEWKEYS read of a round, with the application traffic between two such events summarised as the set of ends where it was seen)")
 	m.Assume("tap callbacks (verif_hooks.go) report every plaintext packet crossing handshakeTransport<->transport with the transport's sequence number")
 	m.Assume("closed system: the harness owns both endpoints, the duplex and every goroutine above the transport; its readers never stop reading")
 	m.Assume("Go runtime goroutine dumps are accurate (blocked-forever verdicts need three identical dumps with nobody runnable)")
@@ -181,7 +181,7 @@ func TestC31(t *testing.T) {
 	var sigMu sync.Mutex
 	hangs := 0
 
-	m.Cases("conn", m.N(64, 3000), func(i int64, r *rand.Rand) {
+	m.Cases("conn", m.N(64, 1500), func(i int64, r *rand.Rand) {
 		if hangs >= 3 {
 			return // a blocked-forever verdict was already reached three times in this process
 		}
@@ -275,7 +275,7 @@ func TestC31(t *testing.T) {
 	})
 
 	m.Gate("connections", 60, "connections run to completion")
-	m.Gate("rekeys_total", 500, "completed re-key rounds under concurrent traffic")
+	m.Gate("rekeys_total", 120, "completed re-key rounds under concurrent traffic")
 	m.Gate("rekeys_initiated_by_client", 10, "rounds where only the client sent KEXINIT unprompted")
 	m.Gate("rekeys_initiated_by_server", 10, "rounds where only the server sent KEXINIT unprompted")
 	m.Gate("simultaneous_kexinit_rounds", 50, "both KEXINITs on the wire before either side read the other's")
